@@ -40,9 +40,12 @@ def declare(U):
     g.raises_l[:] = []
     g.raises("Empty", when="not block or not is_none(timeout)", iff=False)
     counting(U)
-    # stop tokens (None) put on the work queue: counted (ghost)
+    # stop tokens (None) put on the work queue: counted (ghost); put(item, timeout=t) may give up with queue.Full (nothing is put then)
     Q.ghost["stops"] = INT
     pm = Q.methods["put"]
+    pm.params["timeout"] = OptS(REAL)
+    pm.default_expr("timeout", "None")
+    pm.raises("Full", when="not is_none(timeout)", iff=False)
     pm.modifies("self.stops")
     pm.ensures("self.stops == old(self.stops) + ite(is_none(item), 1, 0)", "stop-tokens-are-counted")
     m = Q.method("qsize", {}, INT, trusted=True)       # advisory only: any non-negative number
